@@ -227,6 +227,11 @@ func specC07(tier string) *SeqSpec {
 	for _, e := range [][]string{{"PX", "15552000000"}, {"PX", "315360000000"}, {"EX", "315360000"}, {"EX", "9223372037"}, {"PXAT", "4102444800000"}, {"EXAT", "32503680000"}} {
 		S = append(S, Op{Args: append([]string{"SET", "ks", "v"}, e...)}, Op{Args: append([]string{"SET", "kn", "v"}, e...)}, Op{Args: append([]string{"GETEX", "ks"}, e...)})
 	}
+	// absolute deadlines at the end of the number range
+	for _, k := range []string{"ks", "kn"} {
+		// (deadlines after the year 9999 that ARE expressible are not judged: the emulator keeps such keys for ever)
+		S = append(S, c("EXPIREAT", k, "9223372036854775807"), c("EXPIREAT", k, "9223372036854776"), c("SET", k, "v", "EXAT", "9223372036854775807"), c("GETEX", k, "EXAT", "9223372036854776"), c("EXPIREAT", k, "9223372036854776", "GT"), c("SET", k, "v", "EXAT", "9223372036854776", "NX"))
+	}
 	S = append(S, c("PSETEX", "ks", "15552000000", "v"), c("PSETEX", "kn", "315360000000", "v"), c("SETEX", "ks", "315360000", "v"), c("SETEX", "kn", "9223372037", "v"))
 	for _, k := range []string{"ks", "kn"} {
 		for _, e := range [][]string{{"EX", "100"}, {"PX", "100000"}, {"EXAT", "1893457000"}, {"PXAT", "1893457000000"}, {"EXAT", "1000"}, {"PXAT", "1000"}, {"KEEPTTL"}} {
